@@ -835,6 +835,42 @@ func (fe *FuncEnc) escapes(a ssa.Value) bool {
 		case *ssa.DebugRef:
 		case *ssa.Slice:
 			return true
+		case *ssa.MakeClosure:
+			// captured by a closure: the cell stays private if no capturing closure writes it or leaks its address
+			for i, b := range x.Bindings {
+				if b == a {
+					if fn, ok := x.Fn.(*ssa.Function); !ok || i >= len(fn.FreeVars) || freeVarWrittenOrLeaked(fn.FreeVars[i], 0) {
+						return true
+					}
+				}
+			}
+		default:
+			return true
+		}
+	}
+	return false
+}
+
+func freeVarWrittenOrLeaked(fv *ssa.FreeVar, depth int) bool {
+	if depth > 3 {
+		return true
+	}
+	refs := fv.Referrers()
+	if refs == nil {
+		return false
+	}
+	for _, r := range *refs {
+		switch x := r.(type) {
+		case *ssa.UnOp, *ssa.DebugRef:
+		case *ssa.MakeClosure:
+			for i, b := range x.Bindings {
+				if b == ssa.Value(fv) {
+					fn, ok := x.Fn.(*ssa.Function)
+					if !ok || i >= len(fn.FreeVars) || freeVarWrittenOrLeaked(fn.FreeVars[i], depth+1) {
+						return true
+					}
+				}
+			}
 		default:
 			return true
 		}
